@@ -85,7 +85,12 @@ class C01(PropBase):
     def comparable(self, sess, i, step):
         # time-only text is documented as relative to "today": where a union lets another
         # member read such text, the outcome legitimately depends on clock and zone
-        return not ("v" in step and hist.env_relative_value(step["v"]))
+        if "v" in step and hist.env_relative_value(step["v"]):
+            return False
+        # ... and so is the *wire form* when a lenient earlier member wrote a later member's value
+        # (the recorded first-acceptor-marshal finding): str(timedelta) is time-only text
+        wire = sess.results.get(("wire", step.get("id", i)))
+        return not (wire is not None and hist.env_relative_value(wire))
 
     def nontrivial(self, sess, i, step, out, hit_delta):
         if step["op"] != "roundtrip":
